@@ -4,6 +4,7 @@ go 1.26.8
 
 require (
 	github.com/btcsuite/btcd/btcec/v2 v2.3.5-0.20250307104530-c7191d2913c7
+	github.com/golang/snappy v1.0.0
 	github.com/pborman/uuid v1.2.1
 	gitlab.com/aquachain/aquachain v0.0.0
 	golang.org/x/crypto v0.37.0
@@ -15,7 +16,6 @@ require (
 	github.com/decred/dcrd/dcrec/secp256k1/v4 v4.4.0 // indirect
 	github.com/edsrzf/mmap-go v1.2.0 // indirect
 	github.com/go-stack/stack v1.8.1 // indirect
-	github.com/golang/snappy v1.0.0 // indirect
 	github.com/google/uuid v1.6.0 // indirect
 	github.com/hashicorp/golang-lru v1.0.2 // indirect
 	github.com/huin/goupnp v1.3.0 // indirect
